@@ -325,8 +325,12 @@ func (h *harness) crashcheck(k int) (event, error) {
 		for _, m := range t.Matches {
 			mat[m] = true
 		}
+		rh.world = map[uint64]*flowTruth{}
 		for _, o := range robs {
-			ft := &flowTruth{cport: o.cport, sport: o.sport, cbytes: o.cbytes, sbytes: o.sbytes, cdata: o.cdata, sdata: o.sdata}
+			rh.world[o.id] = &flowTruth{cport: o.cport, sport: o.sport, cbytes: o.cbytes, sbytes: o.sbytes, cdata: o.cdata, sdata: o.sdata}
+		}
+		for _, o := range robs {
+			ft := rh.world[o.id]
 			want, ok := rh.evalDef(t.Definition, o.id, ft, 0)
 			if ok && want != mat[uint(o.id)] {
 				h.complain("C12", "after restart (cut %q) tag %s (%q) says %v for stream %d, its definition evaluates to %v", cut, t.Name, t.Definition, mat[uint(o.id)], o.id, want)
